@@ -79,7 +79,10 @@ def main(argv):
                     return [ERRNAME.get(v[0], '?')]
                 dirs = {p[0]: ('R' if p[1] else 'P') for p in ports}
                 return [0, sorted([dirs[ds(k)] + ':' + cap(ds(k)), sm] for k, sm in v[1])]
-            cases.append(({'op': 'build', 'p': [ps, pm], 'r': [s, m], 'ports': ports}, req, dec))
+            breq = {'op': 'build', 'p': [ps, pm], 'r': [s, m], 'ports': ports}
+            if pm == ['w', 'all'] and nb % 2 == 0:
+                breq['mc'] = 'api'        # the provides port as multi-client port: ProvidesMultiClientApi(id), still Mts<>
+            cases.append((breq, req, dec))
             nb += 1
     # cross product provides x requires through PortsCfg (sampled) and through the builder (sampled)
     n = 1500 if tier == 'quick' else 60000
@@ -111,7 +114,10 @@ def main(argv):
                     return [ERRNAME.get(v[0], '?')]
                 dirs = {p[0]: ('R' if p[1] else 'P') for p in ports}
                 return [0, sorted([dirs[ds(k)] + ':' + cap(ds(k)), sm] for k, sm in v[1])]
-            cases.append(({'op': 'build', 'p': [ps, pm], 'r': [rs, rm], 'ports': ports}, req, dec))
+            breq = {'op': 'build', 'p': [ps, pm], 'r': [rs, rm], 'ports': ports}
+            if ps == ['w', 'none'] and pm in (['w', 'all'], ['w', 'remaining']) and pp and i % 20 == 0:
+                breq['mc'] = pp[0]        # a multi-client port: exposed through ProvidesMultiClient<Port>(id), still Mts<>
+            cases.append((breq, req, dec))
             nb += 1
     bad = run_cases(cases, rep, worker='ports_worker', vm_sample=(60 if tier == 'quick' else 400), vm_name='c03')
     for i, r, mv in bad[:5]:
